@@ -79,6 +79,9 @@ pub fn family(tier: Tier, f: &mut dyn FnMut(&'static str, G)) {
     f("C", call(E::Word(vec![lit("--color="), E::Alt(vec![lit("always"), lit("never"), lit("auto")])])));
     f("C", call(E::Seq(vec![E::Word(vec![lit("--color="), E::Alt(vec![lit("always"), lit("never")])]), lit("foo")])));
     f("C", call(E::Seq(vec![p1(), lit("bar")])));
+    // `||` inside a word with a nested juxtaposition in one branch
+    f("C", call(E::Seq(vec![E::Word(vec![lit("--mode="), E::Fb(vec![lit("fast"), E::Word(vec![lit("slow"), E::Alt(vec![lit("er"), lit("est")])])])]), lit("t")])));
+    f("C", G { stmts: vec![Stmt::Call { name: "cmd".into(), expr: E::Word(vec![lit("--mode="), E::r("M")]) }, def("M", E::Fb(vec![lit("fast"), E::Word(vec![lit("slow"), E::Alt(vec![lit("er"), lit("est")])])]))] });
     // prefixes holding the same word-break character more than once / several different ones
     f("C", call(E::Seq(vec![E::Word(vec![lit("k=v="), E::Alt(vec![lit("1"), lit("2")])]), lit("t")])));
     f("C", call(E::Word(vec![lit("h:p:"), E::Alt(vec![lit("x"), lit("y@z")])])));
